@@ -108,6 +108,7 @@ unsigned long mc_virtual_ms(void) { return vclock_ms; }
 int mc_env_choice(int n, const char *what) { return env_choice(n, COST_DEVIATION, what); }
 
 /* ------------------------------------------------------------------ choices */
+static int used_budget[4];
 static int choose(int n, const uint8_t *cost, uint64_t fp)
 {
     int c = 0;
@@ -122,6 +123,7 @@ static int choose(int n, const uint8_t *cost, uint64_t fp)
     ctl->trace[choice_pos].n = (uint8_t)n; ctl->trace[choice_pos].chosen = (uint8_t)c; ctl->trace[choice_pos].fp = fp;
     memcpy(ctl->trace[choice_pos].cost, cost, n);
     choice_pos++; ctl->ntrace = choice_pos;
+    used_budget[cost[c] & 3]++;
     return c;
 }
 
@@ -141,7 +143,7 @@ uint64_t model_fingerprint(void)
 {
     uint64_t h = 1469598103934665603ull; int i;
 #define MIX(x) do { h = ch_mix(h, (uint64_t)(x)); } while (0)
-    for (i = 0; i < nthreads; i++) { MIX(T[i].finished); MIX(T[i].pend_kind); MIX((uintptr_t)T[i].pend_obj); MIX(T[i].pend_arg); MIX(T[i].nops); MIX(T[i].ch); MIX(T[i].spin_parked); MIX(T[i].woken); MIX(T[i].joined + 2 * T[i].detached); }
+    for (i = 0; i < nthreads; i++) { MIX(T[i].finished); MIX(T[i].pend_kind); MIX((uintptr_t)T[i].pend_obj); MIX(T[i].pend_arg); MIX(T[i].nops); MIX(T[i].ch); MIX(T[i].spin_parked); MIX(T[i].woken); MIX(T[i].joined + 2 * T[i].detached); MIX(T[i].sb_n); }
     for (i = 0; i < 8; i++) MIX(observes[i]);
     MIX(pthread_model_fp());
     MIX(ch_objects_acc);
@@ -206,9 +208,12 @@ static int pick_next(int self, int self_may_continue)
             for (i = 0; i < nen; i++) if (en[i] != self) { order[n] = en[i]; cost[n] = COST_FREE; n++; }
         } else {
             if (cur_enabled) { order[n] = self; cost[n] = COST_FREE; n++; }
-            for (i = 0; i < nen; i++) if (!(cur_enabled && en[i] == self)) { order[n] = en[i]; cost[n] = cur_enabled ? COST_PREEMPT : COST_FREE; n++; }
+            for (i = 0; i < nen; i++) if (!(cur_enabled && en[i] == self)) {
+                if (ctl->lean && cur_enabled && used_budget[COST_PREEMPT] >= ctl->bound_p) continue;
+                order[n] = en[i]; cost[n] = cur_enabled ? COST_PREEMPT : COST_FREE; n++;
+            }
         }
-        for (i = 0; i < nspur && n < MAXALT; i++) { order[n] = 100 + spur[i]; cost[n] = COST_SPURIOUS; n++; }
+        for (i = 0; i < nspur && n < MAXALT; i++) { if (ctl->lean && used_budget[COST_SPURIOUS] >= ctl->bound_s) break; order[n] = 100 + spur[i]; cost[n] = COST_SPURIOUS; n++; }
         c = choose(n, cost, model_fingerprint());
         if (order[c] >= 100) {           /* spurious wake-up: the waiter now contends for its mutex; choose again */
             Thread *w = &T[order[c] - 100];
@@ -251,6 +256,7 @@ void sched_point(int kind, void *obj, long arg)
     Thread *t = &T[self];
     if (!mc_active) return;
     if (self != cur) mc_engine_error("thread T%d ran without the baton (current T%d)", self, cur);
+    if (t->pst_n) tso_capture(t);
     if (++ctl->steps > ctl->horizon)
         mc_violation("SCHED", "livelock/horizon", "execution exceeded the horizon of %d visible steps (livelock or unbounded loop)", ctl->horizon);
     t->pend_kind = kind; t->pend_obj = obj; t->pend_arg = arg; t->nops++;
@@ -261,6 +267,8 @@ void sched_point(int kind, void *obj, long arg)
     if (ctl->verbose) mc_log("T%d %s %p%s", next, op_name(T[next].pend_kind), T[next].pend_obj, next != self ? "  (switch)" : "");
     hand_over(self, next);
     vc_tick(self);
+    /* everything except a plain load / store drains the store buffer on x86 (atomic operations are locked instructions or mfence, the rest enters the kernel or a lock) */
+    if ((t->sb_n || t->pst_n) && !(kind == OP_ATOMIC && (arg == 0 || arg == 1 || arg == 6 || arg == 7))) tso_flush(t);
 }
 
 /* the running thread has just become non-enabled by the op it executed (e.g. entered a condition wait):
@@ -278,6 +286,7 @@ void sched_block_current(void)
 void thread_finish_current(void)
 {
     int self = my_tid, next;
+    if (T[self].sb_n || T[self].pst_n) tso_flush(&T[self]);
     T[self].finished = 1; T[self].pend_kind = OP_NONE;
     vc_tick(self);
     next = pick_next(-1, 0);
@@ -445,7 +454,7 @@ static int run_child(const uint8_t *prefix, const uint8_t *prefix_n, int len, in
     pid_t pid; int st;
     ctl->prefix_len = len; memcpy(ctl->prefix, prefix, len); memcpy(ctl->prefix_n, prefix_n, len);
     ctl->ntrace = 0; ctl->overflow = 0; ctl->steps = 0; ctl->violated = 0; ctl->engine_error = 0; ctl->finished = 0;
-    ctl->outcome[0] = 0; ctl->nontrivial_mask = 0; ctl->exists_mask = 0; ctl->log_len = 0; ctl->verbose = verbose; ctl->horizon = B.horizon;
+    ctl->outcome[0] = 0; ctl->nontrivial_mask = 0; ctl->exists_mask = 0; ctl->log_len = 0; ctl->verbose = verbose; ctl->horizon = B.horizon; ctl->tso = B.tso; ctl->spin_patience = B.spin_patience; ctl->lean = B.spin_patience > 1; ctl->bound_p = B.preemptions; ctl->bound_s = B.spurious; ctl->bound_d = B.deviations;
     ctl->sig[0] = ctl->desc[0] = ctl->prop[0] = 0;
     { static long seq; ctl->exec_id = (long)getpid() * 1000000L + (++seq); }
     pid = fork();
@@ -564,7 +573,7 @@ int mc_main(int argc, char **argv, const McHarness *hs, int nh)
 {
     int i, hi = -1, first_harg; const char *replay = NULL; size_t o = 0;
     uint8_t pre[MAXPREFIX], pre_n[MAXPREFIX];
-    B.preemptions = 2; B.spurious = 0; B.deviations = 0; B.horizon = 3000; B.max_execs = 0; B.deadline_s = 0;
+    B.preemptions = 2; B.spurious = 0; B.deviations = 0; B.horizon = 3000; B.max_execs = 0; B.deadline_s = 0; B.spin_patience = 1;
     if (argc < 2) { fprintf(stderr, "usage: %s <harness> [-p N] [-s N] [-d N] [-H horizon] [-X maxexecs] [-D seconds] [--replay choices] [-- harness args]\n", argv[0]); for (i = 0; i < nh; i++) fprintf(stderr, "  %s  %s\n", hs[i].name, hs[i].help ? hs[i].help : ""); return 2; }
     for (i = 0; i < nh; i++) if (!strcmp(hs[i].name, argv[1])) hi = i;
     if (hi < 0) { fprintf(stderr, "unknown harness %s\n", argv[1]); return 2; }
@@ -580,6 +589,8 @@ int mc_main(int argc, char **argv, const McHarness *hs, int nh)
         else if (!strcmp(argv[i], "-D")) B.deadline_s = atof(argv[++i]);
         else if (!strcmp(argv[i], "--replay")) replay = argv[++i];
         else if (!strcmp(argv[i], "-N")) prune = 0;
+        else if (!strcmp(argv[i], "-B")) B.tso = 1;
+        else if (!strcmp(argv[i], "-S")) B.spin_patience = atol(argv[++i]);
         else if (!strcmp(argv[i], "--")) { first_harg = i + 1; break; }
         else { fprintf(stderr, "unknown option %s\n", argv[i]); return 2; }
     }
